@@ -27,11 +27,13 @@ def run(tier, seed):
         combos = []
         for i, ak in enumerate(akinds):
             combos.append((kinds[i % len(kinds)], ak, {}))
+        if fmt == "packed":
+            combos.append(("ES256-P256", "ES256-P256", {"leaf_no_bc": True}))      # attestation certificate without basicConstraints
         if fmt == "tpm":
             for na in ("SHA1", "SHA256", "SHA384", "SHA512"):
                 combos.append(("RS256", "RS256", {"tpm_name_alg": na}))
                 combos.append(("ES256-P384", "ES256-P256", {"tpm_name_alg": na}))
-        for kind, ak, kk in (combos if not quick else combos[:: 2] + combos[-2:]):
+        for kind, ak, kk in (combos if not quick else combos[:: 2] + combos[-3:]):
             s = regsim.RScn(fmt, kind, ak)
             s.k.update(kk)
             pd, reg = regsim.build(s)
